@@ -212,6 +212,26 @@ class UnusedTranslator:
                 args[index] = transform_ast(arg, "Variable", partial(replace_rest, old_vars=old_vars))
             return SymbolicAtom(Function(LOC, self.symbol.name, args, False))
 
+    @staticmethod
+    def _uses_respect_repeated_arguments(prg: list[AST], rule: AST, head: Predicate, head_args: Sequence[AST]) -> bool:
+        """a head a(X,X) forces two arguments to be equal, a use a(V,W) can only be replaced if V and W are the same"""
+        repeated = [[i for i, other in enumerate(head_args) if other == arg] for arg in set(head_args)]
+        repeated = [group for group in repeated if len(group) > 1]
+        if not repeated:
+            return True
+        for stm in prg:
+            if stm is rule:
+                continue
+            for atom in collect_ast(stm, "SymbolicAtom"):
+                if atom.symbol.ast_type != ASTType.Function:
+                    continue
+                if Predicate(atom.symbol.name, len(atom.symbol.arguments)) != head:
+                    continue
+                for group in repeated:
+                    if any(atom.symbol.arguments[i] != atom.symbol.arguments[group[0]] for i in group):
+                        return False
+        return True
+
     def remove_single_copies(self, prg: list[AST]) -> list[AST]:
         """remove rules of the form a(X) :- b(X) and replaces a/1 with b/1"""
         ret: list[AST] = []
@@ -236,6 +256,8 @@ class UnusedTranslator:
                 continue
             # very simple
             if not all(map(lambda x: x.ast_type == ASTType.Variable, hlit.atom.symbol.arguments)):
+                continue
+            if not self._uses_respect_repeated_arguments(prg, rules[0], head, hlit.atom.symbol.arguments):
                 continue
             if not len(hlit.atom.symbol.arguments) == len(blit.atom.symbol.arguments):
                 continue
